@@ -19,7 +19,7 @@ use metrique_aggregation::histogram::{
 };
 use metrique_aggregation::traits::AggregateValue;
 use metrique_core::CloseValue;
-use metrique_writer::unit::{AsBytes, AsKilobytes, AsMicroseconds, AsSeconds, UnitTag};
+use metrique_writer::unit::{AsBytes, AsKilobytes, AsMicroseconds, AsSeconds};
 use metrique_writer::{MetricFlags, MetricValue, Observation, Unit, ValidationError, Value, ValueWriter};
 use serde_json::{Value as J, json};
 use std::collections::HashMap;
@@ -287,7 +287,6 @@ fn cmd_conc(a: &HashMap<String, String>) {
 }
 
 fn main() {
-    let _ = <metrique_writer::unit::None as UnitTag>::UNIT;
     let (cmd, a) = util::args();
     match cmd.as_str() {
         "run" => cmd_run(&a),
